@@ -35,6 +35,9 @@ func TestC12(t *testing.T) {
 			failCase(rt, replayDoc{Property: "C12", Kind: "history", Ops: e.Log}, v)
 		}
 		c12Install(e)
+		if rapid.IntRange(0, 3).Draw(rt, "withfaults") == 0 {
+			cfg.Faults = 3 // the file left behind by a failed commit is a file this code wrote, too
+		}
 		runHistory(rt, e, cfg, nil, fail)
 		finishHistory(e, fail)
 		col.Add(e.Log, e.Labels["features>=3"] > 0, e.Labels)
@@ -43,6 +46,8 @@ func TestC12(t *testing.T) {
 }
 
 func c12Install(e *drv.Env) {
+	e.AllowCommitErr = true
+	e.AfterFailure = failureOracle
 	oracle := func(e *drv.Env, when string) *drv.Violation {
 		a, v := checkAccounting(e, when)
 		if v != nil {
